@@ -416,6 +416,7 @@ type world struct {
 	nosup   bool // renameat2 reports ENOTSUP (no RENAME_NOREPLACE support)
 	cancel  context.CancelFunc
 	onPoint func(p point) // optional observer (C17)
+	onFault func(f fault, p point) // action for fault kinds other than eio/cancel
 }
 
 // point is one hook point reached, identified by content, not by ordinal.
@@ -624,6 +625,12 @@ func (w *world) point(op, rel string) error {
 				}
 			case "eio":
 				return unix.EIO
+			default:
+				// Harness-defined action (e.g. C17's intra-operation link swap),
+				// performed before the real syscall proceeds.
+				if w.onFault != nil {
+					w.onFault(f, p)
+				}
 			}
 		}
 	}
